@@ -488,3 +488,36 @@ def r6_coordinate_siblings(ck, P):
                         ck.ok(R, '%s loop %d: %s' % (f.name, lp['header'], names))
     if n == 0:
         ck.incomplete(R, 'no sampling loop with a loop-carried position vector found')
+
+
+def r7_neighbour_before_repeat(ck, P):
+    """the second bilinear neighbour is the successor of the *unmapped* coordinate"""
+    R = ck.rule('C08-R7n', 'in every fetcher that maps two neighbouring coordinates through repeat(), the second one is computed as first + 1 from the first coordinate as it was before repeat() mapped it (PAD and REFLECT do not commute with +1)', floor=4)
+    n = 0
+    for f in P.functions():
+        reps = [c for c in f.calls('repeat') if len(c.a) >= 2 and c.a[1][0] == 'v' and f.by_id[c.a[1][1]].op == 'alloca']
+        if len(reps) < 2:
+            continue
+        rep_of = {}
+        for c in reps:
+            rep_of.setdefault(c.a[1][1], []).append(c)
+        for st in f.insts():
+            if st.op != 'store' or st.a[1][0] != 'v' or st.a[1][1] not in rep_of:
+                continue
+            v = f.v(st.a[0])
+            if v is None or v.op != 'add' or not any(o[0] == 'c' and int(o[1]) == 1 for o in v.a):
+                continue
+            src = [f.v(o) for o in v.a if o[0] == 'v']
+            if not src or src[0] is None or src[0].op != 'load' or src[0].a[0][0] != 'v' or src[0].a[0][1] not in rep_of or src[0].a[0][1] == st.a[1][1]:
+                continue
+            first = src[0].a[0][1]
+            n += 1; ck.saw(f)
+            # the load of the first coordinate must not come after a repeat() of the first coordinate
+            late = any(f.dominates(c, src[0]) or (c.bb.id == src[0].bb.id and c.i < src[0].i) for c in rep_of[first])
+            where = '%s: %s = %s + 1' % (f.name, f.by_id[st.a[1][1]].dv or 'second', f.by_id[first].dv or 'first')
+            if late:
+                ck.violation(R, f.name, 'second neighbour derived from the mapped coordinate', '%s computes the neighbouring coordinate from the first one after repeat() has already mapped it: for PAD left of the image and inside mirrored REFLECT periods the wrong neighbour is blended (the 32-bit and float fetchers then disagree)' % f.name, st.loc())
+            else:
+                ck.ok(R, where)
+    if n == 0:
+        ck.incomplete(R, 'no fetcher with two repeat()-mapped neighbouring coordinates found')
